@@ -696,6 +696,32 @@ mod test {
 #[doc(hidden)]
 pub mod verif_hooks {
   use super::*;
+  pub use super::{Follows, Has, Inside, Precedes};
+  /// the matcher structs themselves (not boxed into a `Rule`)
+  pub fn has_struct<L: Language>(inner: Rule<L>, stop_by: StopBy<L>, field: Option<u16>) -> Has<L> {
+    Has {
+      inner,
+      stop_by,
+      field,
+    }
+  }
+  pub fn inside_struct<L: Language>(
+    outer: Rule<L>,
+    stop_by: StopBy<L>,
+    field: Option<u16>,
+  ) -> Inside<L> {
+    Inside {
+      outer,
+      stop_by,
+      field,
+    }
+  }
+  pub fn follows_struct<L: Language>(former: Rule<L>, stop_by: StopBy<L>) -> Follows<L> {
+    Follows { former, stop_by }
+  }
+  pub fn precedes_struct<L: Language>(later: Rule<L>, stop_by: StopBy<L>) -> Precedes<L> {
+    Precedes { later, stop_by }
+  }
   pub fn has<L: Language>(inner: Rule<L>, stop_by: StopBy<L>, field: Option<u16>) -> Rule<L> {
     Rule::Has(Box::new(Has {
       inner,
